@@ -36,7 +36,7 @@ CUR = {'ctx': None, 'case': None, 'trace': None}
 
 
 def shards(tier, seed):
-    per = 60 if tier == 'quick' else 300
+    per = 60 if tier == 'quick' else 2500
     budget = 55 if tier == 'quick' else 570
     out = []
     for stream in range(4):
